@@ -131,7 +131,10 @@ def snapshot(md):
     }
 
 
-PROBES = ["# h\n\n> q *e*\n> - l\n\n```x\nc\n```\n\n[a](b) ![i](s) `c`\n\n|a|b|\n|-|-|\n|1|2|\n", "a\n\n    code\n\n1. x\n   > y\n"]
+PROBES = ["# h\n\n> q *e*\n> - l\n\n```x\nc\n```\n\n[a](b) ![i](s) `c`\n\n|a|b|\n|-|-|\n|1|2|\n", "a\n\n    code\n\n1. x\n   > y\n",
+          # nesting close to the caps: a counter left behind by a failed call shows here
+          "[" * 12 + "twelve" + "]" * 12 + "(/t)\n\n" + "[" * 16 + "sixteen" + "]" * 16 + "(/t)\n\n" + "[" * 19 + "nineteen" + "]" * 19 + "(/t)\n",
+          "> " * 9 + "nine\n\n" + "> " * 18 + "eighteen\n\n" + "- " * 9 + "item\n"]
 
 
 def fault_case(preset, opts, enable, doc, k, exc):
@@ -220,6 +223,8 @@ CONFIGS = [
 ]
 
 FAULT_DOCS = [
+    "[[[[[[[[hello *x* `c` <b> &amp; \\* ![i](s)]]]]]]]](/target)\n",
+    "> > > > - - - deep *e* [l [m [n](o)](p)](q)\n",
     "> quoted *text*\n> second line\n\n- item one\n- item two\n  > nested quote\n\nplain paragraph\n",
     "# h *e*\n\n```py\ncode\n```\n\n[l](/u \"t\") ![i](/s) `c` <b>x</b> &amp; \\*\n\n|a|b|\n|-|-|\n|c|d|\n",
     "1. a\n   - b\n     > c\n\n[r]: /u\n\n[r] \"q\" -- ~~s~~\n",
